@@ -163,7 +163,8 @@ def gen_uv(rng):
     p2, f, kind = planar_disk(rng)
     verts = pose(rng, [[x, y, 0.0] for x, y in p2])
     sh = rng.choice([0.0, 0.3])
-    uvs = [[x + sh * y + 2.0, 0.8 * y - 1.0] for x, y in p2]
+    flip = rng.choice([1.0, 1.0, -1.0])      # a layout with the v axis pointing down (image coordinates): every UV triangle is clockwise
+    uvs = [[x + sh * y + 2.0, flip * 0.8 * y - 1.0] for x, y in p2]
     qs = []
     for _ in range(6):
         i = rng.randrange(len(f))
